@@ -172,3 +172,50 @@ Example c10_observed :
   /\ is_ok (bw_build_with_values Z LeftmostFirst 16 [([97], 0%Z); ([97; 98], 1%Z); ([97; 98; 99], 2%Z)]) = true
   /\ spec_build_error [[97]; [97; 98]; [97; 98]] = Some DuplicatePattern.
 Proof. vm_compute. repeat split. Qed.
+
+(* ---- "PRECISELY WHEN", within explicit size limits (Proofs/BuildLimits.v) ----------------------------
+   Byte-wise limits: at most U24::MAX patterns, 256 * (total pattern length + 4) <= u32::MAX (every
+   array index stays inside u32: one block of 256 per state at most), 256 * num_free_blocks <=
+   u32::MAX.  Within them construction returns Ok EXACTLY for the valid collections (non-empty, no
+   empty pattern, no two equal patterns) -- never AutomatonScale, never a panic. *)
+From DV Require Import Proofs.BuildLimits.
+
+Theorem bw_construction_succeeds_precisely_on_valid_collections :
+  forall (V : Type) k nfb (pvs : list (list N * V)),
+    nfb <> 0 -> 256 * nfb <= U32_MAX ->
+    (forall p v, In (p, v) pvs -> Forall (fun b => b < 256) p) ->
+    N.of_nat (length pvs) <= U24_MAX -> 256 * (total_len V pvs + 4) <= U32_MAX ->
+    ((exists A, bw_build_with_values V k nfb pvs = Ok A)
+     <-> map fst pvs <> [] /\ Forall (fun p => p <> []) (map fst pvs) /\ NoDup (map fst pvs)).
+Proof.
+  intros V k nfb pvs Hn Hn2 Hb Hc Hl. rewrite <- spec_build_error_none_iff_valid. split.
+  - intros [A HA]. assert (Hsz : 4 * total_len V pvs <= U32_MAX - 1) by (unfold U32_MAX in *; lia).
+    exact (proj1 (bw_build_ok_lemma V k nfb pvs A Hsz HA)).
+  - intros Hv. exact (bw_build_within_limits V k nfb pvs Hn Hn2 Hb Hc Hl Hv).
+Qed.
+Print Assumptions bw_construction_succeeds_precisely_on_valid_collections.
+
+(* Character-wise limits: the block length is a power of two not below the number of distinct pattern
+   characters, hence at most 2 T + 2 for total length T; every array index stays inside u32 when
+   (2 T + 2) * (T + 4) <= u32::MAX, and (2 T + 2) * num_free_blocks <= u32::MAX. *)
+Theorem cw_construction_succeeds_precisely_on_valid_collections :
+  forall (V : Type) k nfb (pvs : list (list N * V)),
+    nfb <> 0 -> (2 * total_len V pvs + 2) * nfb <= U32_MAX ->
+    (2 * total_len V pvs + 2) * (total_len V pvs + 4) <= U32_MAX ->
+    ((exists A, cw_build_with_values V k nfb pvs = Ok A)
+     <-> map fst pvs <> [] /\ Forall (fun p => p <> []) (map fst pvs) /\ NoDup (map fst pvs)).
+Proof.
+  intros V k nfb pvs Hn Hn2 Hl. rewrite <- spec_build_error_none_iff_valid. split.
+  - intros [A HA]. assert (Hsz : 4 * total_len V pvs <= U32_MAX - 1) by (unfold U32_MAX in *; nia).
+    exact (proj1 (cw_build_ok_lemma V k nfb pvs A Hsz HA)).
+  - intros Hv. exact (cw_build_within_limits V k nfb pvs Hn Hn2 Hl Hv).
+Qed.
+Print Assumptions cw_construction_succeeds_precisely_on_valid_collections.
+
+(* Non-vacuity: the limits hold for an ordinary collection and it is built *)
+Example c10_limits_met :
+  let pvs : list (list N * Z) := [([97; 98], 1%Z); ([98], 2%Z); ([97; 98; 99], 3%Z)] in
+  256 * 16 <= U32_MAX /\ N.of_nat (length pvs) <= U24_MAX /\ 256 * (total_len Z pvs + 4) <= U32_MAX
+  /\ (2 * total_len Z pvs + 2) * (total_len Z pvs + 4) <= U32_MAX
+  /\ (exists A, bw_build_with_values Z Standard 16 pvs = Ok A) /\ (exists A, cw_build_with_values Z LeftmostFirst 16 pvs = Ok A).
+Proof. vm_compute. repeat split; try discriminate; eexists; reflexivity. Qed.
